@@ -53,3 +53,23 @@ P['C07'] = dict(
     assumptions=['environment = shadow/vk_world.hpp: FIFO executor, virtual-time timers, stream socket and resolver completed by the harness', 'external events are injected only when the handler queue is empty'],
     jobs=[dict(name='receive_maximum', tu='harness/w_c07.cpp', entry='h_c07', engine='B', clock=True, defs_quick={'VK_STEPS': 7}, defs_thorough={'VK_STEPS': 9},
                reach=['two-in-flight', 'acked', 'reconnected', 'a-publish-completed'], samples=10)])
+
+_pub_assume = ['environment = shadow/vk_world.hpp: FIFO executor, virtual-time timers, stream socket and resolver completed by the harness', 'external events are injected only when the handler queue is empty',
+               'broker model: answers what it received (any listed reason code, any short form, any chunking), or sends one adversarial packet (unknown id, wrong type, inadmissible code, oversize property length); it never acknowledges the same packet twice']
+def _pub_job(name, mode, quick, thorough, reach):
+    return dict(name=name, tu='harness/w_pub.cpp', entry='h_pub', engine='B', clock=True, defs={'VK_MODE': mode}, defs_quick={'VK_STEPS': quick, 'VK_REQS': 1}, defs_thorough={'VK_STEPS': thorough, 'VK_REQS': 2}, reach=reach, samples=10)
+P['C01'] = dict(
+    level_text='The real mqtt_client publishes QoS 1/2 messages with symbolic topic/payload bytes, RETAIN and Message Expiry against a broker model whose every reaction (correct ack with any listed code and short form, wrong type, unknown id, inadmissible code, oversize property length, any chunking, connection loss + reconnect) is explored up to the step bound. Monitor: a completion without error implies that the reference decoder found exactly the requested PUBLISH on the wire of some connection and that the broker afterwards sent the final acknowledgement for that id with the reason code the handler received.',
+    level_note='Bounds: 1 publish of either QoS and 6 steps (quick) / 2 publishes (QoS 2 then QoS 1) and 7 steps (thorough), 1 adversarial packet, 1 reconnect; topics/payloads of 2 bytes (one symbolic each). Stub world replaces sockets/timers/resolver; a write is delivered entirely or not at all.',
+    assumptions=_pub_assume,
+    jobs=[_pub_job('publish_truthful', 1, 6, 7, ['puback', 'pubrec', 'pubcomp', 'bad-packet', 'reconnected', 'success-checked'])])
+P['C02'] = dict(
+    level_text='Same exploration as C01 with the no-loss monitor: no accepted, un-cancelled publish completes with a transport error or try_again at any point, and from every explored state a fault-free suffix (broker reachable, answers everything) completes every request. Retransmission with the same packet identifier is checked by C03\'s monitor.',
+    level_note='Bounded liveness only: the suffix is at most 10 rounds; "eventually" beyond it is not claimed. Faults explored: connection reset at quiescent points (with and without a write in progress), lost acknowledgements, one malformed/unsolicited packet. Refused connections and silent brokers are covered in C10/C12.',
+    assumptions=_pub_assume,
+    jobs=[_pub_job('no_silent_loss', 2, 5, 6, ['reconnected', 'all-requests-completed'])])
+P['C03'] = dict(
+    level_text='Same exploration with the wire-history monitor: DUP=0 on the first transmission, every retransmitted PUBLISH byte-identical to the first except DUP, DUP=1 exactly when an earlier transmission was written successfully, same packet identifier, and no PUBLISH for an exchange once its successful PUBREC was consumed (only PUBREL).',
+    level_note='Bounds as C01. Retransmission happens only across the single reconnect within the bound.',
+    assumptions=_pub_assume,
+    jobs=[_pub_job('qos2_sender', 3, 6, 7, ['pubrec', 'reconnected', 'retransmitted'])])
